@@ -92,6 +92,45 @@ theorem default_covers_4k :
     ∀ p ∈ formatTable, ∀ c ∈ allColours, covers p.2 c (.full 4096 4096) DEFAULT_MEMORY_LIMIT = true := by
   decide +kernel
 
+/-- per-row condition under which every rect of a 4096×4096 surface fits the default limit -/
+def rectCond : Fam → Prop
+  | .pixel bpp _ => bpp ≤ 16
+  | .block bw _ bpb => divCeil 4096 bw * bpb ≤ TARGET_BUFFER_SIZE
+  | .biPlanar e1 e2 sx _ => e1 ≤ 2 ∧ divCeil 4096 sx * e2 ≤ TARGET_BUFFER_SIZE
+
+instance (f : Fam) : Decidable (rectCond f) := by
+  cases f <;> unfold rectCond <;> exact inferInstance
+
+theorem formatTable_rectCond : ∀ p ∈ formatTable, rectCond p.2 := by decide
+
+/-- **…and so does every rect of a 4096×4096 surface**, for every format of the table, every colour,
+every rect inside the surface (general argument from `need_bound`, not an enumeration of rects). -/
+theorem default_covers_4k_rects : ∀ p ∈ formatTable, ∀ (c : Colour) (x y w h : Nat) (ops : List Op),
+    x + w ≤ 4096 → y + h ≤ 4096 → plan p.2 c (.rect 4096 4096 x y w h) = .ok ops →
+    need ops ≤ DEFAULT_MEMORY_LIMIT := by
+  intro p hp c x y w h ops hx hy hplan
+  have hb := need_bound (C06.formatTable_wf p hp) hplan
+  have hc := formatTable_rectCond p hp
+  have hw : w ≤ 4096 := by omega
+  have hh : h ≤ 4096 := by omega
+  generalize p.2 = f at *
+  cases f with
+  | pixel bpp fast =>
+    simp only [lineBytes, rowOrPlaneBytes, rectCond] at hb hc
+    have h1 : w * bpp ≤ 4096 * 16 := Nat.mul_le_mul hw hc
+    have : max TARGET_BUFFER_SIZE 0 = TARGET_BUFFER_SIZE := Nat.max_eq_left (Nat.zero_le _)
+    rw [this] at hb
+    unfold TARGET_BUFFER_SIZE at hb; unfold DEFAULT_MEMORY_LIMIT; omega
+  | block bw bh bpb =>
+    simp only [lineBytes, rowOrPlaneBytes, rectCond] at hb hc
+    rw [Nat.max_eq_left hc] at hb
+    unfold TARGET_BUFFER_SIZE at hb; unfold DEFAULT_MEMORY_LIMIT; omega
+  | biPlanar e1 e2 sx sy =>
+    simp only [lineBytes, rowOrPlaneBytes, rectCond] at hb hc
+    rw [Nat.max_eq_left hc.2] at hb
+    have h1 : 4096 * e1 * h ≤ 4096 * 2 * 4096 := Nat.mul_le_mul (Nat.mul_le_mul_left _ hc.1) hh
+    unfold TARGET_BUFFER_SIZE at hb; unfold DEFAULT_MEMORY_LIMIT; omega
+
 /-- the default limit is what the worst format needs at 4K plus less than 1 MiB: P010/P016 need
 32 MiB + 64 KiB -/
 example : planNeed (plan (.biPlanar 2 4 2 2) (2, 1) (.full 4096 4096)) = 32 * 1024 * 1024 + 65536 := by
